@@ -1,12 +1,16 @@
 (* C05 - all views of a Circuit stay mutually consistent after every edit.
-   In the model the dependency views are functions of the grid (that is the
-   property); what has to be proved of the grid itself is the invariant
-   "no cycle is empty, and in every cycle at most one operation touches a given
-   qudit" (each operation occupies exactly its location in exactly one cycle). *)
-From Coq Require Import List ZArith.
+   In the model the dependency views are FUNCTIONS of the grid (circuit/CViews.v; the
+   harness compares the implementation's incrementally maintained `_front/_rear/_dag/
+   _gate_info/_graph_info`, `next/prev/front/rear`, counters and iteration with them after
+   every call).  What has to be proved is (a) the grid invariant "no cycle is empty, and in
+   every cycle at most one operation touches a given qudit", preserved by every modelled
+   editor, and (b) that the derived views agree with each other (CViewsThm.v).
+   Statements only; proofs in circuit/CThm.v, CThm2.v, CViewsThm.v, CFoldThm.v. *)
+From Coq Require Import List ZArith Sorted.
 Import ListNotations.
-From BQ Require Import circuit.CModel circuit.CThm.
+From BQ Require Import circuit.CModel circuit.CThm circuit.CThm2 circuit.CViews circuit.CViewsThm circuit.CFold circuit.CFoldThm.
 
+(* ---- (a) the invariant ------------------------------------------------------------------ *)
 Theorem C05_append_inv : forall c o, Inv c -> Inv (fst (append_raw c o)).
 Proof. exact append_raw_inv. Qed.
 
@@ -24,13 +28,155 @@ Proof. exact compress_inv. Qed.
 Theorem C05_history_inv : forall n rs ks, Inv (fold_left do_call ks (mkC n rs [])).
 Proof. exact history_inv. Qed.
 
+(* the remaining editors, each for arbitrary (also invalid) arguments *)
+Theorem C05_replace_inv : forall c pt o, Inv c -> Inv (fst (replace c pt o)).
+Proof. exact replace_inv. Qed.
+Theorem C05_batch_replace_inv : forall c pts ops, Inv c -> Inv (fst (batch_replace c pts ops)).
+Proof. exact batch_replace_inv. Qed.
+Theorem C05_batch_pop_inv : forall c pts, Inv c -> Inv (fst (batch_pop c pts)).
+Proof. exact batch_pop_inv. Qed.
+Theorem C05_extend_inv : forall c ops, Inv c -> Inv (fst (extend c ops)).
+Proof. exact extend_inv. Qed.
+Theorem C05_append_circuit_inv : forall c sub loc g, Inv c -> Inv (fst (append_circuit c sub loc g)).
+Proof. exact append_circuit_inv. Qed.
+Theorem C05_insert_circuit_inv : forall c ci sub loc g, Inv c -> Inv (fst (insert_circuit c ci sub loc g)).
+Proof. exact insert_circuit_inv. Qed.
+Theorem C05_replace_with_circuit_inv : forall c pt sub g, Inv c -> Inv (fst (replace_with_circuit c pt sub g)).
+Proof. exact replace_with_circuit_inv. Qed.
+Theorem C05_unfold_inv : forall c pt, Inv c -> Inv (fst (unfold c pt)).
+Proof. exact unfold_inv. Qed.
+Theorem C05_unfold_all_inv : forall fuel c c', Inv c -> unfold_all_fuel fuel c = Some c' -> Inv c'.
+Proof. exact unfold_all_inv. Qed.
+Theorem C05_append_qudit_inv : forall c r, Inv c -> Inv (fst (append_qudit c r)).
+Proof. exact append_qudit_inv. Qed.
+Theorem C05_insert_qudit_inv : forall c qi r, Inv c -> Inv (fst (insert_qudit c qi r)).
+Proof. exact insert_qudit_inv. Qed.
+Theorem C05_pop_qudit_inv : forall c qi, Inv c -> Inv (fst (pop_qudit c qi)).
+Proof. exact pop_qudit_inv. Qed.
+(* renumbering needs every operation on qudits of the circuit (check_valid_operation) *)
+Theorem C05_renumber_inv : forall c perm, Inv c -> in_range c -> Inv (fst (renumber_qudits c perm)).
+Proof. exact renumber_inv. Qed.
+Theorem C05_clear_inv : forall c, Inv (clear c).
+Proof. exact clear_inv. Qed.
+Theorem C05_iadd_inv : forall a b, Inv a -> Inv (fst (c_iadd a b)).
+Proof. exact iadd_inv. Qed.
+Theorem C05_imul_inv : forall a n, Inv a -> Inv (c_imul a n).
+Proof. exact imul_inv. Qed.
+Theorem C05_mul_inv : forall a n, Inv (c_mul a n).
+Proof. exact mul_inv. Qed.
+
+(* every history over the whole modelled alphabet (22 calls, any arguments) from a circuit
+   satisfying the invariant; the only side condition: a renumber_qudits happens in a state
+   whose operations all sit on qudits of the circuit *)
+Theorem C05_history_inv_full : forall ks c, Inv c -> renumbers_in_range ks c -> Inv (fold_left do_callF ks c).
+Proof. exact history_inv_full. Qed.
+(* to do: discharge `renumbers_in_range` from a static well-formedness of the call arguments
+   (blocks whose inner operations fit their location, recursively) *)
+Definition C05_history_inv_unconditional_full : Prop :=
+  forall ks n rs, (forall k, In k ks -> match k with FRenumber _ => False | _ => True end)
+                  -> Inv (fold_left do_callF ks (mkC n rs [])).
+
 (* iteration yields each qudit's operations in timeline order *)
 Theorem C05_iteration_compatible : forall cs q,
   Forall amo cs -> filter (touches q) (iter_ops cs) = tlc cs q.
 Proof. exact proj_iter. Qed.
 
-(* Known finding D6 (fold/straighten can leave an idle cycle) concerns a call that
-   has no Coq model yet; it is reproduced on the implementation by the harness. *)
+(* ---- (b) the derived views agree ------------------------------------------------------------- *)
+(* CircuitDagIterator (heap of ready points, prev_binned_counts) yields every operation exactly
+   once, in strictly increasing (cycle, location[0]) order, i.e. exactly iter_ops *)
+Theorem C05_dag_iter_sorted : forall c,
+  Inv c -> wf_locs c -> locs_in_range c ->
+  dag_iter c = map (fun p => (fst p, Some (snd p))) (ops_with_cycles c).
+Proof. exact dag_iter_sorted. Qed.
+
+Theorem C05_dag_iter_is_iteration : forall c,
+  Inv c -> wf_locs c -> locs_in_range c -> map snd (dag_iter c) = map Some (iter_ops (cycles c)).
+Proof. exact dag_iter_ops. Qed.
+
+Theorem C05_dag_iter_strictly_increasing : forall c,
+  Inv c -> wf_locs c -> locs_in_range c ->
+  map yield_pt (dag_iter c) = points c /\ StronglySorted pt_lt (map yield_pt (dag_iter c)).
+Proof. exact dag_iter_strictly_increasing. Qed.
+
+Theorem C05_dag_iter_once : forall c,
+  Inv c -> wf_locs c -> locs_in_range c ->
+  NoDup (map yield_pt (dag_iter c)) /\
+  (forall i o, In (i, Some o) (dag_iter c) <-> In o (cycle_at c i)).
+Proof. exact dag_iter_once. Qed.
+
+(* the range hypothesis is needed: `_front` only has the circuit's qudits *)
+Theorem C05_dag_iter_needs_range :
+  let c := mkC 1 [2] [[Op false 1 [3] [] [2] []]] in
+  Inv c /\ wf_locs c /\ dag_iter c = [] /\ num_operations c = 1.
+Proof. exact dag_iter_needs_range. Qed.
+
+(* next and prev are inverse *)
+Theorem C05_views_next_prev_inverse : forall c p p',
+  amo_all c -> wf_locs c -> In p (points c) -> In p' (points c) ->
+  In p' (nexts c p) <-> In p (prevs c p').
+Proof. exact next_prev_inverse. Qed.
+
+Theorem C05_views_next_prev_on_inverse : forall c i j q o o',
+  amo_all c -> get_cell c i q = Some o -> get_cell c j q = Some o' ->
+  CViews.next_on c i q = Some (pt_of j o') <-> prev_on c j q = Some (pt_of i o).
+Proof. exact next_prev_on_inverse. Qed.
+
+(* front / rear = the points without predecessors / successors *)
+Theorem C05_views_front : forall c p,
+  amo_all c -> wf_locs c -> locs_in_range c -> In p (front c) <-> In p (points c) /\ prevs c p = [].
+Proof. exact front_no_prev. Qed.
+Theorem C05_views_rear : forall c p,
+  amo_all c -> wf_locs c -> locs_in_range c -> In p (rear c) <-> In p (points c) /\ nexts c p = [].
+Proof. exact rear_no_next. Qed.
+
+(* first_on / last_on = the ends of the qudit's timeline *)
+Theorem C05_views_first_on : forall c q,
+  amo_all c ->
+  match first_on c q with
+  | Some p => exists o, hd_error (tl c q) = Some o /\ p = pt_of (fst p) o /\ get_cell c (fst p) q = Some o
+                        /\ tlc (firstn (fst p) (cycles c)) q = []
+  | None => tl c q = []
+  end.
+Proof. exact first_on_spec. Qed.
+Theorem C05_views_last_on : forall c q,
+  amo_all c ->
+  match last_on c q with
+  | Some p => exists o, last_error (tl c q) = Some o /\ p = pt_of (fst p) o /\ get_cell c (fst p) q = Some o
+                        /\ tlc (skipn (S (fst p)) (cycles c)) q = []
+  | None => tl c q = []
+  end.
+Proof. exact last_on_spec. Qed.
+
+(* counters *)
+Theorem C05_views_num_operations : forall c,
+  num_operations c = length (iter_ops (cycles c)) /\ num_operations c = length (points c).
+Proof. intros c. split; [exact (num_operations_iter c)|exact (num_operations_points c)]. Qed.
+
+Theorem C05_views_gate_counts : forall c,
+  count_sum (gate_counts c) = num_operations c /\
+  (forall k, In k (map fst (gate_counts c)) -> exists cy o, In cy (cycles c) /\ In o cy /\ k = gate_key o) /\
+  Forall (fun kn => 1 <= snd kn) (gate_counts c).
+Proof. exact gate_counts_sum. Qed.
+
+(* _graph_info keys are ordered pairs of qudits of one operation, each listed once *)
+Theorem C05_views_graph_info : forall c,
+  (forall a b, In (a, b) (map fst (graph_info c)) ->
+     a < b /\ exists cy o, In cy (cycles c) /\ In o cy /\ In a (o_loc o) /\ In b (o_loc o)) /\
+  NoDup (map fst (graph_info c)) /\ Forall (fun kn => 1 <= snd kn) (graph_info c).
+Proof. exact graph_info_ordered. Qed.
+
+Theorem C05_views_active_qudits : forall c q, In q (active_qudits c) <-> q < nq c /\ tl c q <> [].
+Proof. exact active_qudits_spec. Qed.
+
+Theorem C05_views_depth : forall c, amo_all c -> depth c <= ncyc c.
+Proof. exact depth_le_cycles. Qed.
+
+(* ---- known finding D6: fold can leave an idle cycle ------------------------------------------- *)
+(* the model of fold (circuit/CFold.v, compared with the implementation on every fold call
+   of the histories) returns, on the witness of corpus/C05/D6.json, a grid with an empty cycle *)
+Theorem C05_fold_idle_cycle_refuted :
+  exists c r c' n, Inv c /\ fold c r = (c', OkN n) /\ ~ Inv c'.
+Proof. exact fold_idle_cycle_refuted. Qed.
 
 Example C05_nonvacuous :
   let cx := Op false 4 [0;1] [] [2;2] [] in
@@ -38,3 +184,25 @@ Example C05_nonvacuous :
   cycles (fold_left do_call [CAppend cx; CInsert 0 x0; CPop None] (mkC 2 [2;2] [])) = [[x0]]
   /\ cycles (fold_left do_call [CAppend cx; CInsert 0 x0] (mkC 2 [2;2] [])) = [[x0]; [cx]].
 Proof. vm_compute. split; reflexivity. Qed.
+
+(* a history over the full alphabet, and the views of its result *)
+Example C05_nonvacuous_full :
+  let cx := Op false 4 [0;1] [] [2;2] [] in
+  let cx12 := Op false 4 [1;2] [] [2;2] [] in
+  let x0 := Op false 1 [0] [] [2] [] in
+  let ks := [FAppend cx; FAppendQudit 2; FInsert 0 x0; FReplace (1, 1)%Z cx12; FRenumber [2;0;1]; FIadd (mkC 3 [2;2;2] [[x0]])] in
+  let c := fold_left do_callF ks (mkC 2 [2;2] []) in
+  renumbers_in_range ks (mkC 2 [2;2] []) /\
+  cycles c = [[Op false 1 [2] [] [2] []]; [Op false 4 [0;1] [] [2;2] []]; [x0]] /\
+  front c = [(0, 2); (1, 0)] /\ rear c = [(0, 2); (2, 0)] /\
+  map yield_pt (dag_iter c) = [(0, 2); (1, 0); (2, 0)] /\ num_operations c = 3 /\ depth c = 2 /\
+  graph_info c = [((0, 1), 1)].
+Proof. intros cx cx12 x0 ks c.
+  assert (E : fold_left do_callF [FAppend cx; FAppendQudit 2; FInsert 0 x0; FReplace (1, 1)%Z cx12] (mkC 2 [2;2] [])
+              = mkC 3 [2;2;2] [[x0]; [cx12]]) by (vm_compute; reflexivity).
+  split.
+  - cbn [ks renumbers_in_range]. repeat split; auto.
+    change (in_range (fold_left do_callF [FAppend cx; FAppendQudit 2; FInsert 0 x0; FReplace (1, 1)%Z cx12] (mkC 2 [2;2] []))).
+    rewrite E. intros cy o a Hcy Ho Ha. cbn [cycles nq] in *.
+    destruct Hcy as [<-|[<-|[]]]; destruct Ho as [<-|[]]; cbn in Ha; repeat (destruct Ha as [<-|Ha]; [auto with arith|]); destruct Ha.
+  - vm_compute. repeat split. Qed.
